@@ -23,7 +23,7 @@ DISPATCH_2D = {("S", "S"): "impl_assign_scalar_scalar_fxn", ("A", "S"): "impl_as
 
 
 def slice_for(t):
-    return c03_slice(t) + ",assign,variable_assign"
+    return c03_slice(t)
 
 
 def gen(t, sform, shape, forms, lens, src_kind, domain, tier):
